@@ -123,6 +123,8 @@ var proxiesB = []proxyB{
 	{"S1", "sidecar-ns1-sa3", "sidecar", "ns1", "ns1", "sa3"},
 	// what part a shows to be reachable: empty namespace claim, identity ns1/sa1 verified
 	{"R1e", "router-ns1-sa1-claiming-no-namespace", "router", "", "ns1", "sa1"},
+	// same service account name as R1 in the other namespace (a key that drops the namespace would confuse them)
+	{"R2b", "router-ns2-sa1", "router", "ns2", "ns2", "sa1"},
 }
 
 func (p proxyB) authenticated() bool { return p.VNS != "" }
